@@ -116,22 +116,38 @@ def gen_history(rng: random.Random, nstruct=4, length=12, invalid_p=0.0, max_pin
         if sizes[0] == 0:
             sizes[0] = 1
         k = rng.randrange(sizes[0])
-        emit(["map", "x77", [0, k]])
-        tr.mapped["x77"] = (0, k)
+        if rng.random() < 0.5:
+            emit(["map", "x77", [0, k]])
+            tr.mapped["x77"] = (0, k)
+        else:
+            # ... or everything is raised first (so the pins that get wired next are exposed ones), and raised again
+            # after a further structure has been added
+            emit(["raise"])
+            for p in tr.free():
+                if p not in tr.mapped.values():
+                    tr.mapped["auto%d_%d" % tuple(p)] = p
         cand = [j for j in range(1, min(nstruct, 2)) if sizes[j] > 0]
         if cand:
             j = cand[0]
             do_connect((0, k), (j, rng.randrange(sizes[j])))
             if rng.random() < 0.5 and nstruct >= 3:
                 do_add(2)
+                emit(["raise"])
+                for p in tr.free():
+                    if p not in tr.mapped.values():
+                        tr.mapped["auto%d_%d" % tuple(p)] = p
+            keep = dict(tr.mapped)
             do_cut(j)
-            tr.mapped["x77"] = (0, k)
+            for nm, p in keep.items():       # exposures of the structures that stay survive the cut
+                if p[0] != j:
+                    tr.mapped[nm] = p
             if rng.random() < 0.5:
                 do_add(j)
-        emit(["raise"])
-        for p in tr.free():
-            if p not in tr.mapped.values():
-                tr.mapped["auto%d_%d" % tuple(p)] = p
+        if rng.random() < 0.5:               # (half of the histories solve with the exposures made so far)
+            emit(["raise"])
+            for p in tr.free():
+                if p not in tr.mapped.values():
+                    tr.mapped["auto%d_%d" % tuple(p)] = p
         emit(["solve"])
         length = len(ops) + rng.randint(0, 4)
     if scenario == "multilink":
@@ -374,8 +390,8 @@ class Driver:
                 self.sol.map_pins({op[1]: (self.structure(x[0]), self.pin(x))})
             elif op[0] == "raise":
                 self.nraise = getattr(self, "nraise", 0) + 1
-                if self.nraise % 2 == 0:
-                    with self.sol:               # the public helper on the active solver (every second time)
+                if self.nraise % 3 != 1:
+                    with self.sol:               # the public helper on the active solver (two times out of three)
                         lk.raise_pins()
                 else:
                     self.sol.maps_all_pins()
